@@ -4,6 +4,7 @@ import (
 	pkts "github.com/energomonitor/bisquitt/packets"
 	pkts1 "github.com/energomonitor/bisquitt/packets1"
 	"github.com/energomonitor/bisquitt/transactions"
+	"github.com/energomonitor/bisquitt/util"
 )
 
 type pingTransaction struct {
@@ -18,6 +19,12 @@ func newPingTransaction(client *Client) *pingTransaction {
 			RetryTransaction: transactions.NewRetryTransaction(
 				client.groupCtx, client.cfg.RetryDelay, client.cfg.RetryCount,
 				func(lastPkt interface{}) error {
+					// A sleeping client sends nothing but the wake-up PINGREQ.
+					client.pingLock.Lock()
+					defer client.pingLock.Unlock()
+					if client.state.Get() == util.StateAsleep {
+						return nil
+					}
 					tLog.Debug("Resend.")
 					return client.send(lastPkt.(pkts.Packet))
 				},
